@@ -55,6 +55,7 @@ structure Core where
   kind : Kind
   max : Nat := 65536                      -- `MAX_LINE_SIZE`
   catchVE : Bool := true                  -- `except (HTTPException, ValueError)` (fixes/D18-…); false = the unrepaired `except HTTPException`
+  resetPT : Bool := true                  -- `parseMessage` resets `.parms`, `.trails` (fixes/D29c-…); false = they survive a reused parser
   version : Option (Nat × Nat) := none
   length : Option Nat := none
   chunked : Option Bool := none
@@ -337,7 +338,9 @@ def stepOn (c : Core) (buf : Bytes) : Res :=
   | .dead => .stop { c with stopIter := true } buf
   | .unmodelled => .stop c buf
   | .fresh =>
-    .cont { c with ended := some false, closed := false, errored := false, gen := .waitStart } buf
+    .cont { c with ended := some false, closed := false, errored := false,
+                   parms := if c.resetPT then none else c.parms,
+                   trails := if c.resetPT then none else c.trails, gen := .waitStart } buf
   | .waitStart =>
     if ¬ c.started ∧ buf = [] then .stop c buf
     else .cont { c with started := true, headers := some [], gen := .startLine } buf
